@@ -5,6 +5,15 @@ HERE = os.path.dirname(os.path.dirname(os.path.abspath(__file__)))
 props = [json.loads(l) for l in open(os.path.join(HERE, 'properties.jsonl'))]
 TECH = "contract-based deductive verification (VCs generated from the real AST, discharged by z3/cvc5)"
 CLAIMS = {
+ 'C18': dict(
+   text="Repeat._event, Repeat._maintask (coroutine: while-loop invariant, awaits as environment steps with timeout / new datum / "
+        "cancellation outcomes), Repeat.init_regular, Repeat.__init__ and Event.send are executed from the real AST: a matching event "
+        "is forwarded at once with repeat=0, orig_source = the sender and then queued, other types change nothing; every re-send is "
+        "numbered one more than the previous, carries the latest data with repeat=n, is preceded by set_output(n) and never exceeds "
+        "count; a new datum restarts the numbering; Python's duplicate-keyword rule at send(**data, repeat=n) is modelled (this found "
+        "the chained-Repeat defect, fixed in /repo).",
+   note="Trusted: pyvc encoding, z3, asyncio.Queue/wait_for interface contracts (FIFO, timeout), set_output (C02), time_period (C19). "
+        "Unclaimed: the pace in seconds, Event(..., repeat=) construction, nothing re-sent after stop (C08)."),
  'C20': dict(
    text="Each Counter handler (_setmod, _event_inc/dec/put/reset, __init__) is symbolically executed from /repo's current AST against a "
         "postcondition taken from the property statement (result = Python arithmetic reduced by floor-modulo, output in [0,M), type "
